@@ -288,6 +288,8 @@ def run(ctx):
         n += c20b(ctx, tu)
         c20c(ctx, tu)
         c20d(ctx, tu)
+        from rules import C14
+        C14.c14f(ctx, tu)    # C20.f: clauses that read _N after the first suspension
         units.append({"unit": tu.name, "functions": len(tu.fns)})
     ctx.floor("C20.b handler coroutine instantiations", n, 6)
     m = c20e(ctx)
